@@ -622,6 +622,13 @@ func (r *Runner) Finish() error {
 	if len(r.subs) == 0 {
 		return nil
 	}
+	if !r.Cfg.IsValue {
+		for i, sr := range r.subs {
+			if err := r.compareFilteredList(sr.spec); err != nil {
+				return fmt.Errorf("subscription %d %v: %v", i, sr.spec, err)
+			}
+		}
+	}
 	st := Epoch.Add(SentinelTick * time.Second)
 	if r.Cfg.IsValue {
 		s := r.Cfg.Proto.ProtoReflect().New().Interface()
@@ -652,6 +659,14 @@ func (r *Runner) Finish() error {
 		}
 		if sr.undetermined {
 			continue
+		}
+		if !r.Cfg.IsValue {
+			if err := r.compareFold(got, sr.spec); err != nil {
+				return fmt.Errorf("subscription %d %v: %v", i, sr.spec, err)
+			}
+		}
+		if !sr.spec.Backpressure {
+			continue // lossy delivery: only the folded view is fixed
 		}
 		if err := compareEvents(got, sr.want, sr.spec, r.Cfg.IsValue); err != nil {
 			return fmt.Errorf("subscription %d %v: %v", i, sr.spec, err)
@@ -696,6 +711,96 @@ func compareEvents(got []GotEvent, want []ExpEvent, spec SubSpec, isValue bool) 
 		} else if g.Tick <= w.TickLo || g.Tick > w.TickHi {
 			// REMOVE events read the clock inside the call as well
 			return fmt.Errorf("event %d change time T%d, expected within (T%d,T%d]%s", i, g.Tick, w.TickLo, w.TickHi, render())
+		}
+	}
+	return nil
+}
+
+// compareFold folds the received events (seed first) into a view and compares it with List under the same
+// predicate and read mask, both as the real collection and as the model report it. For updates-only subscriptions
+// the view only knows the items that changed since subscribing, so only those ids are compared.
+func (r *Runner) compareFold(got []GotEvent, spec SubSpec) error {
+	view := map[string]proto.Message{}
+	touched := map[string]bool{}
+	for i, g := range got {
+		touched[g.ID] = true
+		switch g.Kind {
+		case types.ChangeType_ADD, types.ChangeType_UPDATE, types.ChangeType_REPLACE:
+			if g.New == nil {
+				return fmt.Errorf("event %d [%v] has no new value", i, g)
+			}
+			view[g.ID] = g.New
+		case types.ChangeType_REMOVE:
+			delete(view, g.ID)
+		default:
+			return fmt.Errorf("event %d [%v] has an unexpected change type", i, g)
+		}
+	}
+	want := r.Model.List(spec.ReadMask, spec.Include)
+	var ropts []resource.ReadOption
+	if spec.ReadMask != nil {
+		ropts = append(ropts, resource.WithReadMask(lib.CloneMask(spec.ReadMask)))
+	}
+	if spec.Include != nil {
+		ropts = append(ropts, resource.WithInclude(resource.FilterFunc(spec.Include)))
+	}
+	_ = ropts
+	wantByID := map[string]proto.Message{}
+	for i, id := range want.ListIDs {
+		wantByID[id] = want.List[i]
+	}
+	ids := map[string]bool{}
+	for id := range view {
+		ids[id] = true
+	}
+	for id := range wantByID {
+		if !spec.UpdatesOnly || touched[id] {
+			ids[id] = true
+		}
+	}
+	var diffs []string
+	for id := range ids {
+		v, inView := view[id]
+		w, inWant := wantByID[id]
+		switch {
+		case inView && !inWant:
+			diffs = append(diffs, fmt.Sprintf("view has %q=%s but List does not", id, Txt(v)))
+		case !inView && inWant:
+			diffs = append(diffs, fmt.Sprintf("List has %q=%s but the view does not", id, Txt(w)))
+		case inView && inWant:
+			if e := sameMsg(v, w, spec.ReadMask); e != nil {
+				diffs = append(diffs, fmt.Sprintf("item %q: view %v", id, e))
+			}
+		}
+	}
+	if len(diffs) > 0 {
+		sort.Strings(diffs)
+		var sb strings.Builder
+		for _, g := range got {
+			sb.WriteString("\n    " + g.String())
+		}
+		return fmt.Errorf("folding the received events does not give List: %s\n  received:%s", strings.Join(diffs, "; "), sb.String())
+	}
+	return nil
+}
+
+// compareFilteredList compares List under the subscription's predicate and mask with the model (before the sentinel exists).
+func (r *Runner) compareFilteredList(spec SubSpec) error {
+	want := r.Model.List(spec.ReadMask, spec.Include)
+	var ropts []resource.ReadOption
+	if spec.ReadMask != nil {
+		ropts = append(ropts, resource.WithReadMask(lib.CloneMask(spec.ReadMask)))
+	}
+	if spec.Include != nil {
+		ropts = append(ropts, resource.WithInclude(resource.FilterFunc(spec.Include)))
+	}
+	got := r.Col.List(ropts...)
+	if len(got) != len(want.List) {
+		return fmt.Errorf("List(include=%s) has %d items, model has %d (%q)", spec.IncludeName, len(got), len(want.List), want.ListIDs)
+	}
+	for i := range got {
+		if e := sameMsg(got[i], want.List[i], spec.ReadMask); e != nil {
+			return fmt.Errorf("List(include=%s) item %q: %v", spec.IncludeName, want.ListIDs[i], e)
 		}
 	}
 	return nil
